@@ -298,3 +298,89 @@ def run(ctx, prog, res):
             r7.fail("C01.R7:%s:unmodelled" % variant, "the weekday shift of DateOffset::apply is computed by an expression outside the modelled arithmetic (%s): %s" % (e, sh), lib.where_of(ap, t))
     r7.check(seen_variants == {"Next", "Prev"}, {"variants_with_a_shift": sorted(seen_variants)}, "C01.R7:variants", "DateOffset::apply shifts the date for %s (expected Next and Prev)" % sorted(seen_variants), lib.where_of(ap))
     r7.floor(3)
+    rule_r8(prog, res)
+    rule_r9(prog, res)
+
+
+def _or_roots(f, op, names, depth=0):
+    """Named locals a boolean is the disjunction of: `a || b` is lowered to `if a { true } else { b }`."""
+    pl = lib.operand_place(op)
+    if pl is None or pl["p"] or depth > 6:
+        return None
+    l = pl["l"]
+    if names.get(l):
+        return {names[l]}
+    defs = [(bb, n) for bb, n in f.defs_of(l) if n["k"] == "assign"]
+    if len(defs) == 1 and defs[0][1]["rv"]["k"] == "use":
+        return _or_roots(f, defs[0][1]["rv"]["op"], names, depth + 1)
+    if len(defs) == 2:
+        consts = [(bb, n) for bb, n in defs if n["rv"]["k"] == "use" and n["rv"]["op"].get("k") == "const" and n["rv"]["op"].get("bool") is True]
+        others = [(bb, n) for bb, n in defs if (bb, n) not in consts]
+        if len(consts) == 1 and len(others) == 1 and others[0][1]["rv"]["k"] == "use":
+            # the switch that decides between the two definitions
+            for sbb, _ in f.live_blocks():
+                t = f.blocks[sbb]["term"]
+                if t["k"] != "switch":
+                    continue
+                tg = dict(t["targets"])
+                if 0 not in tg:
+                    continue
+                true_bb, false_bb = t["otherwise"], tg[0]
+                if f.dominates(true_bb, consts[0][0]) and f.dominates(false_bb, others[0][0]) and not f.dominates(true_bb, others[0][0]):
+                    a = _or_roots(f, t["op"], names, depth + 1)
+                    b = _or_roots(f, others[0][1]["rv"]["op"], names, depth + 1)
+                    if a is not None and b is not None:
+                        return a | b
+    return None
+
+
+def rule_r9(prog, res):
+    r9 = res.rule("C01.R9", "a day stays covered once a rule applied to it (fallback rules apply only on days nothing else covered): while the rules of an expression are folded for one day, the 'some rule matched' flag becomes `this rule matches || an earlier rule matched` in the arms of normal and additional rules; the fallback arm keeps the earlier flag when it keeps the earlier schedule and takes this rule's otherwise")
+    f = prog.require_fn("opening_hours::opening_hours::OpeningHours::<L>::schedule_at")
+    names = {i: l.get("name") for i, l in enumerate(f.locals) if l.get("name") in ("prev_match", "curr_match")}
+    if set(names.values()) != {"prev_match", "curr_match"}:
+        # the flags are recognised by role, not by name: the loop-carried bool initialised to false, and the result of DaySelector::filter
+        names = {}
+        for i, l in enumerate(f.locals):
+            if l["ty"] != "bool":
+                continue
+            defs = [n for _, n in f.defs_of(i)]
+            if any(n["k"] == "call" and n["callee"].get("name") == "filter" for n in defs):
+                names[i] = "curr_match"
+            elif len(defs) == 2 and any(n["k"] == "assign" and n["rv"]["k"] == "use" and n["rv"]["op"].get("bool") is False for n in defs):
+                names[i] = "prev_match"
+    pairs = []
+    for bb, b in f.live_blocks():
+        for st in b["stmts"]:
+            if st["k"] == "assign" and st["rv"]["k"] == "agg" and st["rv"].get("ak") == "tuple" and len(st["rv"]["ops"]) == 2 and f.locals[st["dst"]["l"]]["ty"].startswith("(bool, core::option::Option<opening_hours::schedule::Schedule>"):
+                pairs.append((st, _or_roots(f, st["rv"]["ops"][0], names)))
+    got = sorted(["+".join(sorted(x)) if x else "?" for _, x in pairs])
+    want = sorted(["curr_match+prev_match", "curr_match+prev_match", "prev_match", "curr_match"])
+    r9.check(got == want, {"fn": f.id, "matched_flag_per_arm": got}, "C01.R9:flag",
+             "schedule_at updates the 'some rule matched this day' flag with %s (expected: `curr || prev` for normal and additional rules, prev / curr in the two fallback cases): a day covered by an earlier rule can be taken over by a fallback rule" % got, lib.where_of(f))
+    r9.floor(1)
+
+
+def rule_r8(prog, res):
+    r8 = res.rule("C01.R8", "wrapping ranges (`Oct-Mar`, `week 51-02`, `Fr-Mo`) include both ends: the wrapping membership test of an inclusive range only uses inclusive comparisons with its bounds (`<=`, `>=`, RangeInclusive / RangeFrom / RangeToInclusive::contains), never a strict comparison or a half-open range")
+    fs = [f for f in prog.fns.values() if f.crate == lib.OH and f.name == "wrapping_contains" and f.impl and "RangeInclusive" in (f.impl.get("self") or "")]
+    if len(fs) != 1:
+        r8.anchor_missing("WrappingRange::wrapping_contains for RangeInclusive<T>")
+        return
+    f = fs[0]
+    n = 0
+    for _, t in f.calls():
+        nm = flow.call_name(t)
+        pa = t["callee"].get("path_args") or nm
+        shs = [flow.shape(f, a, depth=5) for a in t["args"]]
+        if re.search(r"PartialOrd.*::(lt|gt|le|ge)$", nm):
+            n += 1
+            strict = nm.endswith("::lt") or nm.endswith("::gt")
+            r8.check(not strict, {"comparison": nm.split("::")[-1], "operands": shs}, "C01.R8:cmp:%s" % nm.split("::")[-1], "wrapping_contains compares a bound strictly (%s %s): an end of the range is excluded" % (nm.split("::")[-1], shs), lib.where_of(f, t))
+        elif re.search(r"core::ops::range::(\w+)::<.*>::contains$|core::ops::range::(\w+)::<Idx>::contains$", nm) or nm.endswith("::contains"):
+            n += 1
+            kind = re.search(r"range::(\w+)", pa)
+            kind = kind.group(1) if kind else "?"
+            r8.check(kind in ("RangeInclusive", "RangeFrom", "RangeToInclusive"), {"membership": kind + "::contains"}, "C01.R8:contains:%s" % kind,
+                     "wrapping_contains tests membership in a half-open %s: an end of the range is excluded" % kind, lib.where_of(f, t))
+    r8.check(n >= 3, {"comparisons_and_membership_tests": n}, "C01.R8:FLOOR", "FLOOR: wrapping_contains has %d comparisons (expected the order test and two bounds)" % n, lib.where_of(f))
